@@ -267,6 +267,11 @@ func (c *specCtx) ident0(name string) (tv, error) {
 	if t, ok := c.bound[name]; ok {
 		return tv{t, nil}, nil
 	}
+	if fr.callArgs != nil && strings.HasPrefix(name, "arg") && strings.HasSuffix(name, "__") {
+		if n, err := strconv.Atoi(name[3 : len(name)-2]); err == nil && n < len(fr.callArgs) {
+			return tv{fr.callArgs[n], fr.callArgTypes[n]}, nil
+		}
+	}
 	if fr.mapKV != nil {
 		switch name {
 		case "mapkey__":
